@@ -6,7 +6,7 @@ wt=/tmp/wt-ref
 props=${PROPS:-$(python3 -c "import json;print(' '.join(c['property_id'] for c in json.load(open('/verif/MANIFEST.json'))["checks"]))")}
 for d in "$@"; do
  for pd in $d/R*/patch.diff; do
-  git -C $wt checkout -q -- . ; git -C $wt checkout -q --detach $(git -C /repo rev-parse HEAD)
+  git -C $wt checkout -q -- . ; git -C $wt clean -fdq; git -C $wt checkout -q --detach $(git -C /repo rev-parse HEAD)
   if ! git -C $wt apply $pd; then echo "== $pd DOES NOT APPLY"; continue; fi
   echo "== $pd"
   printf '%s\n' $props | xargs -P 3 -I{} bash -c "/verif/bin/tpcheck -prop {} -no-evidence -repo $wt 2>&1 | grep -E '^(violated|UNDECIDED|ERROR)|rules=.* violations=[1-9]' | cut -c1-260"
